@@ -25,7 +25,7 @@ Verdicts(c) ==
    ELSE IF c.kind = "select" THEN
      (IF c.expect = "refuse" /\ c.outcome = "ok" THEN {<<"NotRefused", c.what>>} ELSE {}) \cup
      (IF c.expect = "accept" /\ c.outcome # "ok" THEN {<<"WronglyRefused", c.what>>} ELSE {}) \cup
-     (IF c.outcome \notin {"ok", "SyntaxError", "SelectorError", "TypeError", "ValueError", "Exception", "CodeNotFoundError"}
+     (IF c.outcome # "ok" /\ c.outcome \notin {c.allowed[i] : i \in DOMAIN c.allowed}
       THEN {<<"InternalAtSelect", c.outcome>>} ELSE {})
    ELSE {})
 Init == cid \in 1..Len(Cases) /\ done = FALSE
